@@ -662,3 +662,7 @@ for _p, _r in (("C16", "R-C16-forms"), ("C13", "R-C13-radius")):
     P(_p, CU, _OLD_CE, "    range_ = (np.arange(ncomp) + 0.5) / ncomp")
     B(_p, CU, _OLD_CE, "    range_ = np.arange(ncomp) / ncomp", _r)
     B(_p, CU, "radiuses = np.asarray([radius_fns[b](range_) for b in branch_indices])", "radiuses = np.asarray([radius_fns[b](np.linspace(0, 1, ncomp)) for b in branch_indices])", _r)
+# take(A, I) of a one-dimensional draw is A[I]; both ends are drawn equally often
+_OLD_TK = "    pre_syn_neurons = pre_syn_neurons[sorting]\n    post_syn_neurons = post_syn_neurons[sorting]"
+P("C20", CO, _OLD_TK, "    pre_syn_neurons = np.take(pre_syn_neurons, sorting)\n    post_syn_neurons = np.take(post_syn_neurons, sorting)")
+B("C20", CO, "post_syn_neurons = np.random.choice(post_cell_inds, size=num_connections)", "post_syn_neurons = np.random.choice(post_cell_inds, size=num_post)", "R-C20-length")
